@@ -36,6 +36,7 @@ def c04rm (a : List String) (_obs : String) : String :=
   | [st, hex, k, fin] =>
     let s := mkSrc2 hex k fin
     let (ms, e, s') := readMessage (natOr st) s
+    if e == some .utf8 then s!"{msgsStr ms} {oerrStr e} -" else
     s!"{msgsStr ms} {oerrStr e} {consumed s.bytes.length s'}"
   | _ => "BADOP"
 
@@ -51,7 +52,8 @@ def c04rdd (a : List String) (obs : String) : String :=
     let (p, op, e, s', cx) := readData stN w ProtoErr.textBytes s { masks } (s.fuel + 4)
     let op' := if want == "D" then op else if e.isSome then 0 else (if want == "T" then 1 else 2)
     -- Go returns nil payload together with most errors; ReadAll errors keep the partial payload
-    s!"{op'}:{Bytes.toHex p} {oerrStr e} {consumed s.bytes.length s'} @{writesStr2 cx.env.dst} masks={mstr}"
+    let posS := if e == some .utf8 then "-" else toString (consumed s.bytes.length s')
+    s!"{op'}:{Bytes.toHex p} {oerrStr e} {posS} @{writesStr2 cx.env.dst} masks={mstr}"
   | _ => "BADOP"
 
 structure RdrCfg where
@@ -85,10 +87,13 @@ def lazyCb (one : Bool) : Callback := fun h r s cx =>
     | none => ⟨some .fault, r, s, cx⟩
     | some (bytes, n, _, r', s') => ⟨none, r', s', { cx with msgs := cx.msgs ++ [(h.op, bytes.take n)] }⟩
 
-def rdrRun (total : Nat) (cb : Option Callback) (hasExt : Bool) :
-    Rd → Src → Ctx → List String → List String → List String × Src × Ctx
-  | _, s, cx, [], acc => (acc.reverse, s, cx)
+/-- `dead`: the reader has reported ErrInvalidUTF8 earlier in the script; from then on the bytes handed out
+    alongside later results and the transport position are not compared (see the harness). -/
+def rdrRunD (total : Nat) (cb : Option Callback) (hasExt : Bool) (dead : Bool) :
+    Rd → Src → Ctx → List String → List String → List String × Src × Ctx × Bool
+  | _, s, cx, [], acc => (acc.reverse, s, cx, dead)
   | r, s, cx, t :: ts, acc =>
+    let mask (tag item : String) : String := if dead then tag ++ ",after-utf8" else item
     match t.splitOn ":" with
     | ["nf"] =>
       let (h, e, r', s', cx') := r.nextFrame s cx cb
@@ -96,22 +101,24 @@ def rdrRun (total : Nat) (cb : Option Callback) (hasExt : Bool) :
         | some e, _ => "nf," ++ rerrStr e
         | none, some h => "nf," ++ hdrStr h
         | none, none => "nf,PANIC"
-      rdrRun total cb hasExt r' s' cx' ts (item :: acc)
+      rdrRunD total cb hasExt (dead || e == some .utf8) r' s' cx' ts (mask "nf" item :: acc)
     | ["r", n] =>
       match r.read s cx (natOr n) cb with
-      | none => (("PANIC" :: acc).reverse, s, cx)
+      | none => (("PANIC" :: acc).reverse, s, cx, dead)
       | some (bytes, m, e, r', s', cx') =>
-        rdrRun total cb hasExt r' s' cx' ts (s!"r,{Bytes.toHex (bytes.take m)},{oerrStr e}" :: acc)
+        rdrRunD total cb hasExt (dead || e == some .utf8) r' s' cx' ts
+          (mask "r" (if m > natOr n then s!"r,BADN{m},{oerrStr e}"
+                     else s!"r,{Bytes.toHex ((bytes ++ List.replicate (m - bytes.length) 0).take m)},{oerrStr e}") :: acc)
     | ["ra"] =>
       let (p, e, r', s', cx') := readAllRd r s cx cb
-      rdrRun total cb hasExt r' s' cx' ts (s!"ra,{Bytes.toHex p},{oerrStr e}" :: acc)
+      rdrRunD total cb hasExt (dead || e == some .utf8) r' s' cx' ts (mask "ra" s!"ra,{Bytes.toHex p},{oerrStr e}" :: acc)
     | ["d"] =>
       let (e, r', s', cx') := r.discard s cx cb (pullFuel s)
-      rdrRun total cb hasExt r' s' cx' ts (s!"d,{oerrStr e}" :: acc)
+      rdrRunD total cb hasExt (e == some .utf8) r' s' cx' ts (s!"d,{oerrStr e}" :: acc)
     | ["st"] =>
       let c := if hasExt then b2s r.compressed else "-"
-      rdrRun total cb hasExt r s cx ts (s!"st,{r.state},{c},{consumed total s}" :: acc)
-    | _ => rdrRun total cb hasExt r s cx ts ("BADOP" :: acc)
+      rdrRunD total cb hasExt dead r s cx ts (mask "st" s!"st,{r.state},{c},{consumed total s}" :: acc)
+    | _ => rdrRunD total cb hasExt dead r s cx ts ("BADOP" :: acc)
 
 def c04rdr (a : List String) (_obs : String) : String :=
   match a with
@@ -120,8 +127,8 @@ def c04rdr (a : List String) (_obs : String) : String :=
     let c := parseCfg cfg
     let r : Rd := { state := natOr st, skipCheck := c.skip, checkUTF8 := c.utf8, maxFrame := c.max, ext := c.ext }
     let cb := if c.inter then some collectCb else if c.lazy == 1 then some (lazyCb false) else if c.lazy == 2 then some (lazyCb true) else none
-    let (items, s', cx) := rdrRun s.bytes.length cb c.ext r s {} script []
-    s!"{";".intercalate items} inter={msgsStr cx.msgs} {consumed s.bytes.length s'}"
+    let (items, s', cx, dead) := rdrRunD s.bytes.length cb c.ext false r s {} script []
+    s!"{";".intercalate items} inter={msgsStr cx.msgs} {if dead then "-" else toString (consumed s.bytes.length s')}"
   | _ => "BADOP"
 
 end Ws.Driver
